@@ -7,6 +7,7 @@ import sys
 sys.path.insert(0, os.path.dirname(os.path.abspath(__file__)))
 import props  # noqa: E402
 import vlib  # noqa: E402
+import levels  # noqa: E402
 
 ALL = ["C%02d" % i for i in range(1, 21)]
 
@@ -26,10 +27,10 @@ def main():
             "engine": "lean-proof+correspondence",
             "level_claimed": {
                 "category": "proof",
-                "text": spec.get("level_text", ""),
-                "design_ref": spec.get("design_ref", ""),
+                "text": spec.get("level_text") or levels.LEVELS.get(pid, ("", "", ""))[0],
+                "design_ref": spec.get("design_ref") or levels.LEVELS.get(pid, ("", "", ""))[2],
             },
-            "level_note": spec.get("level_note", ""),
+            "level_note": spec.get("level_note") or levels.LEVELS.get(pid, ("", "", ""))[1],
             "technique": spec.get("technique", "Lean 4 theorems about an executable model + differential correspondence check of the model against /repo"),
         })
     na = []
